@@ -1,16 +1,32 @@
 """C15 — generated code has no reachable undefined behaviour on hostile data.
 
 Deciding method: Coq lemmas for ALL 32-bit operands/indices (Props/C15.v: guard
-forms; SPIR-V wrapped div/mod/neg/abs total and exact; shifts and float->int
-refuted), the hardened-operator templates tied to today's naga by the
-regenerated probe table (Gen/SpvOpTable.v, obligation gen_table_in_catalogue),
-plus, per program, the TRAPPING interpreters of the emitted code on hostile
-operands and indices: an execution that reaches an undefined operation is a
-failed execution ("UB: ...").  The text back ends contribute through their own
-catalogues (Props/C03-C05) and trapping interpreters when available."""
-import importlib
-import json
+forms incl. the MSL runtime-array guard for all sizes/offsets/strides; the walk
+that decides which workgroup variables are zero-initialised; SPIR-V wrapped
+div/mod/neg/abs total and exact; shifts and float->int refuted), the
+hardened-operator templates tied to today's naga by the regenerated probe table
+(Gen/SpvOpTable.v, obligation gen_table_in_catalogue), plus, per program, the
+TRAPPING interpreters of the emitted code on hostile operands and indices: an
+execution that reaches an undefined operation, an access outside the indexed
+object / bound buffer or a read of memory that was never written is a failed
+execution ("UB: ...").
 
+Legs (each executes the code naga emitted):
+  SPIR-V  hardened operators; zero initialisation of workgroup variables of every type class x every place the
+          variable can be referenced from (lib/c15progs.py: entry point, helper, helper of helper, if / switch /
+          loop body / continuing / for-update / break-if ...), workgroup memory starting UNDEFINED; index policies
+  HLSL    hardened operators, zero initialisation (same program family) through hlslrun (lib/c03diff.py)
+  MSL     every bounds-check policy (Index / Buffer x Restrict / ReadZeroSkipWrite) x every kind of indexable object
+          with hostile indices against the policy written out in WGSL, buffers given by their byte size;
+          hardened operators incl. shifts and float->int; zero initialisation (lib/c15msl.py, mslrun)
+  GLSL    hardened operators and zero initialisation through glslrun (lib/c15glsl.py); GLSL has no index policy"""
+import json
+import time
+from concurrent.futures import ThreadPoolExecutor
+
+import c15msl
+import c15progs
+import c15spv
 import gen
 import nagarun
 import ocamlbuild
@@ -92,79 +108,51 @@ def spv_words_opts(tools, src, opts):
     return r
 
 
-def run(ctx):
-    tools = vcheck.build_harness(["nagadrive", "goextract", "spvdrive"])
-    ok, failed, log = vcheck.proof_step(
-        ctx, "Props/C15.v", ["Guards/Guards.v", "Spv/Ops.v", "Spv/Catalogue.v", "Spv/CatalogueProofs.v"],
-        gen_writer=lambda: gen.regenerate(tools, ["irenums", "spvoptable"]),
-        extra_obligation_files=["Spv/OpTableCheck.v"])
-    ctx.cov["trusted_base"] += [
-        "Flocq / Reals axioms where Print Assumptions lists them (float templates share definitions with the integer ones)",
-        "probe (lib/spvcheck.py: micro-programs per operator, template abstraction) + gen.py -> coq/Gen/SpvOpTable.v",
-        "extraction ExtrOcamlBasic only; tools irrun (IR/Sem.v) and spvrun (Spv/Sem.v: undefined operations are failed executions)",
-        "SPIR-V operation semantics transcribed from the SPIR-V 1.6 / GLSL.std.450 specifications (Spv/Ops.v)",
-    ]
-    broken = None
-    if not ok:
-        broken = "Coq development no longer checks: %s" % (failed or log[-600:])
-    exe_ir = ocamlbuild.build("irrun")
-    exe_spv = ocamlbuild.build("spvrun")
-    nrun = 0
-    nub = 0
-    # ---- 1. hardened operators on hostile operands, default options
+def ops_inputs():
     inputs = []
     for x in HOSTILE_I:
         for y in HOSTILE_I:
             inputs.append({"buffers": {"0:0": arr_i([0] * 6), "0:1": arr_i([x, y]), "0:2": arr_u([0, 0]), "0:3": arr_u([x, y])}})
-    r = spvcheck.run_pair(tools, exe_ir, exe_spv, OPS_SRC, inputs)
-    if not r["compiled"]:
-        ctx.violation("operator program rejected: %s" % r["comp"], files={"input.wgsl": OPS_SRC}, key="c15:ops-rejected")
-    else:
-        for inp, (cls, detail, ir_res, spv_res) in zip(inputs, r["results"]):
-            nrun += 1
-            if cls != "agree":
-                nub += 1
-                ctx.violation("hardened operators on operands %s: %s %s" % (json.dumps(inp["buffers"]["0:1"]), cls, detail),
-                              files={"input.wgsl": OPS_SRC, "inputs.json": json.dumps(inp)}, key="spv:ops:%s:%s" % (cls, detail[:60]))
-                break
-    # ---- 2. workgroup memory reads as zero (zero-init polyfill)
-    r = spvcheck.run_pair(tools, exe_ir, exe_spv, WG_SRC, [{"buffers": {"0:0": arr_u([5, 5, 5])}}])
-    if r["compiled"]:
-        for cls, detail, ir_res, spv_res in r["results"]:
-            nrun += 1
-            if cls != "agree":
-                ctx.violation("workgroup variable read before any write: %s %s" % (cls, detail),
-                              files={"input.wgsl": WG_SRC}, key="spv:workgroup-zero-init:%s" % cls)
-    else:
-        ctx.violation("workgroup program rejected: %s" % r["comp"], files={"input.wgsl": WG_SRC}, key="c15:wg-rejected")
-    # ---- 3. probes of recorded findings
-    for key, src in PROBES:
-        ins = [{"buffers": {"0:0": arr_u([v, 0, w])}} for v, w in ((1, 40), (0x7FC00000, 32), (0xFF800000, 33), (0x4F800000, 31))]
-        r = spvcheck.run_pair(tools, exe_ir, exe_spv, src, ins)
-        if not r["compiled"]:
+    return inputs
+
+
+# ------------------------------------------------------------------ SPIR-V leg (worker thread: compile + run; judged in the main thread)
+
+def spirv_work(tools, exe_ir, exe_spv, workers):
+    T = {}
+    t0 = time.time()
+    zi = c15progs.zero_init_programs()
+    progs = [("ops", OPS_SRC), ("wg", WG_SRC)] + [("probe%d" % i, src) for i, (_k, src) in enumerate(PROBES)] + [(n, s) for n, s, _m in zi]
+    comp = spvcheck.compile_many(tools, progs)
+    T["compile"] = round(time.time() - t0, 1)
+    t0 = time.time()
+    probe_ins = [{"buffers": {"0:0": arr_u([v, 0, w])}} for v, w in ((1, 40), (0x7FC00000, 32), (0xFF800000, 33), (0x4F800000, 31))]
+    zi_in = [{"buffers": {"0:0": arr_u([5] * 8)}}]
+    items = [("ops", ops_inputs()), ("wg", [{"buffers": {"0:0": arr_u([5, 5, 5])}}])]
+    items += [("probe%d" % i, probe_ins) for i in range(len(PROBES))]
+    items += [(n, zi_in) for n, _s, _m in zi]
+    runnable = []
+    for name, ins in items:
+        c = comp.get(name)
+        if c is not None and "spv" in c and "ir" in c and not ("err" in c or "crash" in c or "panic" in c):
+            runnable.append((name, ins, c))
+    res = c15spv.run_items(exe_ir, exe_spv, [(c, ins, None) for _n, ins, c in runnable], workers=workers)
+    results = {name: (ins, r) for (name, ins, _c), r in zip(runnable, res)}
+    T["run"] = round(time.time() - t0, 1)
+    # index policies
+    t0 = time.time()
+    pol = {}
+    for p, name in ((1, "restrict"), (2, "rzsw")):
+        c = spv_words_opts(tools, INDEX_SRC, {"bounds_index": p})
+        if "words" not in c:
+            pol[name] = {"rejected": c}
             continue
-        for inp, (cls, detail, ir_res, spv_res) in zip(ins, r["results"]):
-            nrun += 1
-            if cls in ("spv_ub", "differ", "spv_fail"):
-                nub += 1
-                ctx.violation("SPIR-V: %s on %s: %s" % (cls, json.dumps(inp["buffers"]["0:0"]), detail),
-                              files={"input.wgsl": src, "inputs.json": json.dumps(inp)}, key=key)
-                break
-    # ---- 4. hostile indices under the Index bounds-check policies (expected values by the policy)
-    pol_stats = {}
-    for pol, name in ((1, "restrict"), (2, "rzsw")):
-        comp = spv_words_opts(tools, INDEX_SRC, {"bounds_index": pol})
-        if "words" not in comp:
-            ctx.violation("index program rejected under bounds_index=%d: %s" % (pol, comp), files={"input.wgsl": INDEX_SRC},
-                          key="spv:index-policy-rejected:%d" % pol)
-            continue
-        jobs = []
-        exp = []
+        jobs, exp = [], []
         d0 = [10, 20, 30, 40]
         o0 = [1, 2, 3]
         for i0 in [0, 3, 4, 5, 0x7FFFFFFF, 0x80000000, 0xFFFFFFFF]:
             for i1 in [1, 4, 0xFFFFFFFF]:
-                jobs.append({"words": comp["words"], "ep": "main", "fuel": 20000, "builtins": {},
+                jobs.append({"words": c["words"], "ep": "main", "fuel": 20000, "builtins": {},
                              "buffers": {"0:0": arr_u(o0), "0:1": arr_u(d0), "0:2": arr_u([i0, i1])}})
                 d = list(d0)
                 o = list(o0)
@@ -178,9 +166,85 @@ def run(ctx):
                         d[i1] = 99
                     o[1] = o[i0] if i0 < 3 else 0
                 exp.append({"0:0": arr_u(o), "0:1": arr_u(d)})
-        outs = spvcheck.run_chunks(exe_spv, jobs)
+        pol[name] = {"jobs": jobs, "exp": exp, "outs": c15spv.run_parallel(exe_spv, jobs, workers, chunk=11)}
+    T["index_policies"] = round(time.time() - t0, 1)
+    return {"comp": comp, "results": results, "zi": zi, "pol": pol, "T": T}
+
+
+def spirv_judge(ctx, W):
+    comp, results = W["comp"], W["results"]
+    nrun = 0
+    nub = 0
+
+    def rejected(name):
+        c = comp.get(name) or {}
+        return {k: v for k, v in c.items() if k in ("err", "stage", "crash", "panic", "spv_err")}
+    # ---- 1. hardened operators on hostile operands, default options
+    if "ops" not in results:
+        ctx.violation("operator program rejected: %s" % rejected("ops"), files={"input.wgsl": OPS_SRC}, key="c15:ops-rejected")
+    else:
+        ins, rs = results["ops"]
+        for inp, (cls, detail, _a, _b) in zip(ins, rs or []):
+            nrun += 1
+            if cls != "agree":
+                nub += 1
+                ctx.violation("hardened operators on operands %s: %s %s" % (json.dumps(inp["buffers"]["0:1"]), cls, detail),
+                              files={"input.wgsl": OPS_SRC, "inputs.json": json.dumps(inp)}, key="spv:ops:%s:%s" % (cls, detail[:60]))
+                break
+    # ---- 2. workgroup memory reads as zero (zero-init polyfill): the original program ...
+    if "wg" not in results:
+        ctx.violation("workgroup program rejected: %s" % rejected("wg"), files={"input.wgsl": WG_SRC}, key="c15:wg-rejected")
+    else:
+        for cls, detail, _a, _b in results["wg"][1] or []:
+            nrun += 1
+            if cls != "agree":
+                ctx.violation("workgroup variable read before any write: %s %s" % (cls, detail),
+                              files={"input.wgsl": WG_SRC}, key="spv:workgroup-zero-init:%s" % cls)
+    # ---- ... and the family: type class x place the variable is referenced from
+    zstats = {"programs": 0, "agree": 0, "not_zero": 0, "out_of_fragment": 0, "sites": len(c15progs.SITES), "type_classes": sorted(set(c15progs.WG_CLASS.values()))}
+    seen = set()
+    for name, src, meta in W["zi"]:
+        if name not in results or results[name][1] is None:
+            ctx.violation("zero-initialisation program %s rejected / cannot be run: %s" % (name, rejected(name)), files={"input.wgsl": src},
+                          found_input=False, key="c15:zi-rejected:%s" % meta["site"], broken="C15 zero-initialisation corpus")
+            continue
+        zstats["programs"] += 1
+        for cls, detail, _a, b in results[name][1]:
+            nrun += 1
+            if cls == "agree":
+                zstats["agree"] += 1
+            elif cls in ("spv_ub", "differ", "spv_fail"):
+                zstats["not_zero"] += 1
+                nub += 1
+                key = "spv:workgroup-zero-init:%s:%s" % (meta["site"], "uninitialised-read" if "undefined value" in detail else cls)
+                if key not in seen:
+                    seen.add(key)
+                    ctx.violation("SPIR-V: workgroup variable(s) of type %s referenced from `%s` only: the first read does not yield zero "
+                                  "(workgroup memory starts undefined): %s %s" % ("/".join(meta["types"]), meta["site"], cls, detail),
+                                  files={"input.wgsl": src}, key=key)
+            else:
+                zstats["out_of_fragment"] += 1
+    # ---- 3. probes of recorded findings
+    for i, (key, src) in enumerate(PROBES):
+        if "probe%d" % i not in results:
+            continue
+        ins, rs = results["probe%d" % i]
+        for inp, (cls, detail, _a, _b) in zip(ins, rs or []):
+            nrun += 1
+            if cls in ("spv_ub", "differ", "spv_fail"):
+                nub += 1
+                ctx.violation("SPIR-V: %s on %s: %s" % (cls, json.dumps(inp["buffers"]["0:0"]), detail),
+                              files={"input.wgsl": src, "inputs.json": json.dumps(inp)}, key=key)
+                break
+    # ---- 4. hostile indices under the Index bounds-check policies (expected values by the policy)
+    pol_stats = {}
+    for name, P in W["pol"].items():
+        if "rejected" in P:
+            ctx.violation("index program rejected under bounds_index=%s: %s" % (name, P["rejected"]), files={"input.wgsl": INDEX_SRC},
+                          key="spv:index-policy-rejected:%d" % (1 if name == "restrict" else 2))
+            continue
         bad = 0
-        for j, e, out in zip(jobs, exp, outs):
+        for j, e, out in zip(P["jobs"], P["exp"], P["outs"]):
             nrun += 1
             if not out.get("ok"):
                 bad += 1
@@ -197,40 +261,264 @@ def run(ctx):
                               files={"input.wgsl": INDEX_SRC, "inputs.json": json.dumps(j["buffers"])},
                               key="spv:index-policy:%s:wrong-value" % name)
                 break
-        pol_stats[name] = {"runs": len(jobs), "bad": bad}
-    ctx.cov["spirv_hostile"] = {"runs": nrun, "undefined_or_wrong": nub, "index_policies": pol_stats}
-    # ---- 5. HLSL: the hardened-operator program through the trapping HLSL interpreter (coq/Hlsl/Sem.v: integer
-    #         division by zero, INT_MIN/-1, out-of-range float->int are failed executions) on boundary operands,
-    #         under the protective option sets; harness of C03 (lib/c03diff.py)
+        pol_stats[name] = {"runs": len(P["jobs"]), "bad": bad}
+    ctx.cov["spirv_hostile"] = {"runs": nrun, "undefined_or_wrong": nub, "index_policies": pol_stats, "workgroup_zero_init": zstats,
+                                "seconds": W["T"]}
+    return nrun
+
+
+# ------------------------------------------------------------------ HLSL leg
+
+def hlsl_work(tools, exe_ir, hlslrun, rng, n_ops, quick):
+    import c03diff as D
+    D.reset_enums()
+    t0 = time.time()
+    hstats, hrecs = D.validate(tools, exe_ir, hlslrun, [("c15_ops", OPS_SRC), ("c15_wg", WG_SRC)], ["default51", "sm60"], n_ops, rng)
+    t1 = time.time()
+    zi = c15progs.zero_init_programs(groups=c15progs.WG_GROUPS_TEXT) + c15progs.private_function_programs()
+    zstats, zrecs = D.validate(tools, exe_ir, hlslrun, [(n, s) for n, s, _m in zi], ["default51"], 1, rng.fork("zi"), want_validate=False)
+    return {"ops": (hstats, hrecs), "zi": (zstats, zrecs), "meta": {n: (s, m) for n, s, m in zi},
+            "T": {"operators": round(t1 - t0, 1), "zero_init": round(time.time() - t1, 1)}}
+
+
+def hlsl_judge(ctx, W):
+    keep = ("runs", "agree", "mismatch", "hlsl_ub", "out_of_fragment", "ir_undefined", "fuel", "not_compiled")
+    hstats, hrecs = W["ops"]
+    out = {k: hstats[k] for k in keep if k in hstats}
+    for rec in hrecs:
+        if rec["verdict"] in ("mismatch", "hlsl_ub"):
+            ctx.violation("HLSL: %s on hostile operands (program %s, options %s): %s" % (rec["verdict"], rec.get("program"), rec.get("optname"), rec.get("detail")),
+                          files={"input.wgsl": OPS_SRC, "record.json": json.dumps({k: v for k, v in rec.items() if k not in ("hlsl",)}, default=str)[:20000]},
+                          key="hlsl:%s:%s" % (rec["verdict"], str(rec.get("detail"))[:60]))
+            break
+    zstats, zrecs = W["zi"]
+    out["zero_init"] = {k: zstats[k] for k in keep if k in zstats}
+    out["zero_init"]["out_of_fragment_reasons"] = zstats.get("out_of_fragment_reasons")
+    seen = set()
+    for rec in zrecs:
+        if rec["verdict"] in ("mismatch", "hlsl_ub"):
+            src, meta = W["meta"].get(rec.get("program"), ("", {"site": "?", "types": [], "space": "?"}))
+            key = "hlsl:zero-init:%s:%s:%s" % (meta["space"], meta["site"], rec["verdict"])
+            if key in seen:
+                continue
+            seen.add(key)
+            ctx.violation("HLSL: %s variable(s) of type %s referenced from `%s`: the first read does not yield zero: %s %s"
+                          % (meta["space"], "/".join(meta["types"]), meta["site"], rec["verdict"], rec.get("detail")),
+                          files={"input.wgsl": src, "record.json": json.dumps({k: v for k, v in rec.items() if k not in ("hlsl",)}, default=str)[:20000]},
+                          key=key)
+    out["seconds"] = W["T"]
+    return out, hstats["runs"] + zstats["runs"]
+
+
+# ------------------------------------------------------------------ MSL leg
+
+def msl_ops_programs():
+    progs = [("divmod", OPS_SRC, {})] + [(n, s, {}) for n, s in c15progs.OPS_EXT.items()]
+    return [("ops_" + n, s, m) for n, s, m in progs]
+
+
+def msl_ops_inputs(plan, name):
+    """operands (x, y) in a[0..1] / au[0..1]; float conversions take float bit patterns"""
+    pairs = []
+    if name in ("ops_f2i", "ops_f2u"):
+        F = c15progs.HOSTILE_F
+        pairs = [(F[k], F[(k + 3) % len(F)]) for k in range(len(F))]
+    else:
+        pairs = [(x, y) for x in HOSTILE_I for y in HOSTILE_I]
+    out = []
+    for x, y in pairs:
+        gl = []
+        for h, sp, b, ty in plan.globals:
+            nm = plan.ir["GlobalVariables"][h]["Name"]
+            n = plan.T.inner(ty)["Size"]["Constant"]
+            gl.append({"o": arr_i([0] * n), "a": arr_i([x, y]), "ou": arr_u([0] * n), "au": arr_u([x, y])}[nm])
+        out.append({"globals": gl, "rt_len": 1, "k": 0, "operands": [x, y]})
+    return out
+
+
+def msl_work(ctx_like, tools, exe_ir, mslrun, workers, quick):
+    import mslcorr
+    T = {}
+    t0 = time.time()
+    enums = mslcorr.Enums(tools)
+    batch = c15msl.Batch(exe_ir, mslrun, workers)
+    idx = c15msl.queue_index(ctx_like, tools, enums, batch, quick)
+    T["index_queue"] = round(time.time() - t0, 1)
+    t0 = time.time()
+    ops = c15msl.queue_plain(ctx_like, tools, enums, batch, msl_ops_programs(), ["default"], msl_ops_inputs, "operators")
+    zi_progs = c15progs.zero_init_programs(groups=c15progs.WG_GROUPS_TEXT) + c15progs.private_function_programs()
+
+    def zi_inputs(plan, name):
+        return [{"globals": [arr_u([5] * 8) if sp == "SpaceStorage" else None for h, sp, b, ty in plan.globals], "rt_len": 1, "k": 0}]
+    zi = c15msl.queue_plain(ctx_like, tools, enums, batch, zi_progs, ["default"], zi_inputs, "zero-init")
+    T["plain_queue"] = round(time.time() - t0, 1)
+    t0 = time.time()
+    batch.run()
+    T["interpreters"] = round(time.time() - t0, 1)
+    T["ir_runs"], T["msl_runs"] = len(batch.ir_reqs), len(batch.msl_reqs)
+    return {"batch": batch, "idx": idx, "ops": ops, "zi": zi, "T": T}
+
+
+def msl_judge(ctx, W):
+    batch = W["batch"]
+    ist = c15msl.judge_index(ctx, batch, W["idx"])
+
+    def f_class(bits, hi):
+        import struct
+        if (bits & 0x7F800000) == 0x7F800000 and (bits & 0x007FFFFF):
+            return "nan"
+        v = struct.unpack("<f", struct.pack("<I", bits))[0]
+        return "saturate-high" if v >= hi else ("saturate-low" if v < (-hi if hi == 2147483648.0 else 0.0) else "in-range")
+
+    def ops_key(c, kind, detail):
+        if kind == "value":
+            # "buffer o: ... .arr[2].i: x vs y": the output element, and for the conversions the class of the operand feeding it
+            elem = detail.split(" MSL ")[-1].split(":")[0].strip()
+            if c["name"] in ("ops_f2i", "ops_f2u"):
+                ops = c["inp"].get("operands", [0, 0])
+                src = ops[1] if elem.startswith(".arr[2]") else ops[0]
+                return "msl:ops:%s:%s" % (c["name"][4:], f_class(src, 2147483648.0 if c["name"] == "ops_f2i" else 4294967296.0))
+            return "msl:ops:%s:%s%s" % (c["name"][4:], detail.split(":")[0].replace("buffer ", ""), elem)
+        return "msl:ops:%s:ub:%s" % (c["name"][4:], detail[:40])
+
+    def nan_operand(c):
+        # WGSL leaves the value of a float->int conversion of NaN open (an indeterminate value, not undefined behaviour)
+        return c["name"] in ("ops_f2i", "ops_f2u") and any((b & 0x7F800000) == 0x7F800000 and (b & 0x007FFFFF) for b in c["inp"].get("operands", []))
+    ost = c15msl.judge_plain(ctx, batch, W["ops"], ops_key, lambda c: "operands %s" % [hex(v) for v in c["inp"].get("operands", [])],
+                             value_open=nan_operand)
+    zst = c15msl.judge_plain(ctx, batch, W["zi"],
+                             lambda c, kind, d: "msl:zero-init:%s:%s:%s" % (c["meta"]["space"], c["meta"]["site"], kind),
+                             lambda c: "%s variable(s) of type %s referenced from `%s`: the first read does not yield zero"
+                             % (c["meta"]["space"], "/".join(c["meta"]["types"]), c["meta"]["site"]))
+    out = {"hostile_indices": ist, "operators": ost, "zero_init": zst, "seconds": W["T"],
+           "policies": "Index and Buffer x {Restrict, ReadZeroSkipWrite} (option sets default, v12_restrict, v23_mixed, v30_mixed2 of lib/mslcorr.py); "
+                       "Unchecked promises nothing and is not run; Image / BindingArray policies: textures are outside the MSL interpreter's fragment"}
+    return out, ist["runs"] + ost["runs"] + zst["runs"], ist["distinct"] + ost["agree"] + zst["agree"]
+
+
+class CtxLike:
+    """what the worker threads may use of ctx (forked in the main thread: no shared mutable state)"""
+    def __init__(self, ctx, tag):
+        self.seed = ctx.seed
+        self.rng = ctx.rng.fork(tag)
+        self.thorough = ctx.thorough
+
+
+def run(ctx):
+    T = {}
+    t_last = [time.time()]
+
+    def lap(name):
+        T[name] = round(time.time() - t_last[0], 1)
+        t_last[0] = time.time()
+    tools = vcheck.build_harness(["nagadrive", "goextract", "spvdrive", "hlsldrive", "msldrive", "glsldrive"])
+    lap("build_harness")
+    ok, failed, log = vcheck.proof_step(
+        ctx, "Props/C15.v", ["Guards/Guards.v", "Spv/Ops.v", "Spv/Catalogue.v", "Spv/CatalogueProofs.v"],
+        gen_writer=lambda: gen.regenerate(tools, ["irenums", "spvoptable"]),
+        extra_obligation_files=["Spv/OpTableCheck.v"])
+    lap("coq_proof_step")
+    ctx.cov["trusted_base"] += [
+        "Flocq / Reals axioms where Print Assumptions lists them (float templates share definitions with the integer ones)",
+        "probe (lib/spvcheck.py: micro-programs per operator, template abstraction) + gen.py -> coq/Gen/SpvOpTable.v",
+        "extraction ExtrOcamlBasic only; tools irrun (IR/Sem.v), spvrun (Spv/Sem.v), hlslrun (Hlsl/Sem.v), mslrun (Msl/Sem.v), glslrun (Glsl/Sem.v): "
+        "undefined operations, out-of-object accesses and reads of never-written memory are failed executions",
+        "SPIR-V operation semantics transcribed from the SPIR-V 1.6 / GLSL.std.450 specifications (Spv/Ops.v); MSL / HLSL / GLSL dialect "
+        "semantics and readers of C04 / C03 / C05 (lib/mslread.py, lib/hlslread.py, lib/glslread.py)",
+        "the policy written out in WGSL (lib/c15progs.py expand()) as the reference of the MSL index leg; buffers of runtime-sized arrays "
+        "modelled as values with exactly the elements whose bytes lie inside the given byte size (lib/c15msl.py)",
+    ]
+    ctx.assumptions = [
+        "single invocation per run (local_invocation_id = 0: the invocation that runs the zero-initialisation); barriers are no-ops",
+        "a storage binding holds at least one element of its runtime-sized array (WebGPU minimum binding size; theorem "
+        "c15_msl_runtime_array_guard_needs_min_binding_size shows the MSL guard needs it)",
+        "statement-level absence of undefined behaviour is validated per program and input by the trapping interpreters, not proved",
+    ]
+    broken = None
+    if not ok:
+        broken = "Coq development no longer checks: %s" % (failed or log[-600:])
+    with ThreadPoolExecutor(5) as ex:       # (one lock and one build directory per tool)
+        exes = list(ex.map(ocamlbuild.build, ["irrun", "spvrun", "hlslrun", "mslrun", "glslrun"]))
+    exe_ir, exe_spv, exe_hlsl, exe_msl, exe_glsl = exes
+    lap("extract_tools")
+    quick = not ctx.thorough
+    workers = max(2, min(6, vcheck.NCPU // 3))
+    legs = {}
+    errors = {}
+
+    def guarded(name, fn, *a):
+        try:
+            legs[name] = fn(*a)
+        except (ModuleNotFoundError, KeyError, vcheck.BuildBroken) as e:
+            errors[name] = "%s: %s" % (type(e).__name__, e)
+    hl_rng = ctx.rng.fork("hlsl")
+    msl_ctx = CtxLike(ctx, "msl")
+    glsl_ctx = CtxLike(ctx, "glsl")
+    with ThreadPoolExecutor(4) as ex:
+        fs = [ex.submit(guarded, "spirv", spirv_work, tools, exe_ir, exe_spv, workers),
+              ex.submit(guarded, "hlsl", hlsl_work, tools, exe_ir, exe_hlsl, hl_rng, ctx.scale(24, 120), quick),
+              ex.submit(guarded, "msl", msl_work, msl_ctx, tools, exe_ir, exe_msl, workers, quick),
+              ex.submit(guarded, "glsl", glsl_work, glsl_ctx, tools, exe_ir, exe_glsl, workers, quick)]
+        for f in fs:
+            f.result()
+    lap("legs_compile_and_run")
+    nrun = 0
+    ndistinct = 0
+    if "spirv" in legs:
+        n = spirv_judge(ctx, legs["spirv"])
+        nrun += n
+        ndistinct += n
+    else:
+        ctx.violation("SPIR-V leg could not run: %s" % errors.get("spirv"), found_input=False, broken="SPIR-V leg", key="c15:leg:spirv")
     text = {}
-    try:
-        import c03diff as D
-        htools = vcheck.build_harness(["hlsldrive"])
-        tools.update(htools)
-        hlslrun = ocamlbuild.build("hlslrun")
-        D.reset_enums()
-        hstats, hrecs = D.validate(tools, exe_ir, hlslrun, [("c15_ops", OPS_SRC), ("c15_wg", WG_SRC)],
-                                   ["default51", "sm60"], ctx.scale(24, 120), ctx.rng.fork("hlsl"))
-        text["hlsl"] = {k: hstats[k] for k in ("runs", "agree", "mismatch", "hlsl_ub", "out_of_fragment", "ir_undefined", "fuel")}
-        for rec in hrecs:
-            if rec["verdict"] in ("mismatch", "hlsl_ub"):
-                ctx.violation("HLSL: %s on hostile operands (program %s, options %s): %s" % (rec["verdict"], rec.get("program"), rec.get("optname"), rec.get("detail")),
-                              files={"input.wgsl": OPS_SRC, "record.json": json.dumps({k: v for k, v in rec.items() if k not in ("hlsl",)}, default=str)[:20000]},
-                              key="hlsl:%s:%s" % (rec["verdict"], str(rec.get("detail"))[:60]))
-                break
-        nrun += hstats["runs"]
-    except (ModuleNotFoundError, KeyError) as e:
-        text["hlsl"] = "not available: %s" % e
-    text["msl"] = "see C04 (coq/Msl, trapping interpreter mslrun): run by check C04"
-    text["glsl"] = "see C05 (coq/Glsl, trapping interpreter glslrun): GLSL emits no guards for / % << int(f); the property restricts GLSL to its index policy"
+    if "hlsl" in legs:
+        text["hlsl"], n = hlsl_judge(ctx, legs["hlsl"])
+        nrun += n
+        ndistinct += n
+    else:
+        text["hlsl"] = "not available: %s" % errors.get("hlsl")
+    if "msl" in legs:
+        text["msl"], n, d = msl_judge(ctx, legs["msl"])
+        nrun += n
+        ndistinct += d
+    else:
+        text["msl"] = "not available: %s" % errors.get("msl")
+        ctx.violation("MSL leg could not run: %s" % errors.get("msl"), found_input=False, broken="MSL leg", key="c15:leg:msl")
+    if "glsl" in legs:
+        text["glsl"], n = glsl_judge(ctx, legs["glsl"])
+        nrun += n
+        ndistinct += n
+    else:
+        text["glsl"] = "not available: %s" % errors.get("glsl")
+    lap("judge")
     ctx.cov["text_backends_hostile"] = text
+    ctx.cov["phase_seconds"] = T
     ctx.cov["evaluations"] = nrun
-    ctx.cov["distinct_nontrivial"] = nrun
+    ctx.cov["distinct_nontrivial"] = ndistinct
     ctx.cov["traces_validated_against_impl"] = nrun
-    ctx.cov["rule"] = ("hostile operand pairs (0, 1, -1, INT_MIN, INT_MAX, 31/32/33, ...)^2 for every hardened operator; "
-                       "workgroup reads before writes; hostile indices (len, len+1, 2^31-1, 2^31, 2^32-1) under each SPIR-V index policy; "
-                       "each run executes the code naga emitted in the trapping interpreter")
+    ctx.cov["rule"] = ("hostile operand pairs (0, 1, -1, INT_MIN, INT_MAX, 31/32/33, ...)^2 for every hardened operator, float bit patterns "
+                       "(NaN, +-inf, +-2^31, 2^32, largest below, huge) for float->int; zero initialisation: (type class of the workgroup / "
+                       "private / function variable) x (place it is referenced from: entry point, helper, helper of helper, block, if, else, "
+                       "switch arm, loop body, continuing, for-update, break-if, nested), first access is a read, memory starts undefined; "
+                       "hostile indices: for every kind of indexable object x MSL policy the values 0, len-1, len, len+1 .. len+4, 2^31-1, 2^31, "
+                       "2^32-2, 2^32-1 (loads and stores, inner and outer level), runtime-sized arrays on buffers of 1 and 3 whole elements and "
+                       "two ragged byte sizes; SPIR-V index policies as before; each run executes the code naga emitted in a trapping interpreter; "
+                       "distinct = distinct (program, options, indices / operands, buffer size)")
     ctx.sample({"program": "ops", "operands": [0x80000000, 0xFFFFFFFF]})
     ctx.sample({"program": "index", "policy": "rzsw", "index": 0xFFFFFFFF})
+    ctx.sample({"program": "ix_rt_member_vec3f", "policy": "buffer/rzsw", "buffer_bytes": 64, "elements": 3, "indices": [3, 0x7FFFFFFF]})
+    ctx.sample({"program": "zi_helper_in_for_update_g0", "site": "helper_in_for_update", "types": c15progs.WG_GROUPS[0]})
     if broken and not ctx.violations:
         ctx.violation(broken, found_input=False, broken=broken)
+
+
+# ------------------------------------------------------------------ GLSL leg (lib/c15glsl.py)
+
+def glsl_work(ctx_like, tools, exe_ir, exe_glsl, workers, quick):
+    import c15glsl
+    return c15glsl.work(ctx_like, tools, exe_ir, exe_glsl, workers, quick, OPS_SRC)
+
+
+def glsl_judge(ctx, W):
+    import c15glsl
+    return c15glsl.judge(ctx, W)
